@@ -28,6 +28,9 @@ type Case struct {
 	Targets []jpx.Path  `json:"targets"`
 	Chunk   gx.Chunking `json:"chunk"`
 	Indent  int         `json:"indent,omitempty"`
+	// Reverse: object members are written in descending key order (the document order is then
+	// not the order of the keys)
+	Reverse bool `json:"reverse,omitempty"`
 }
 
 func TestMain(m *testing.M) {
@@ -68,14 +71,15 @@ func key(steps []any) string {
 	return sb.String()
 }
 
-// docOrder compares two locations by position in the written document: the writer sorts keys.
-func docLess(a, b []any) bool {
+// docLess compares two locations by position in the written document: the writer puts the keys
+// in ascending (or, with reverse, descending) order.
+func docLess(a, b []any, reverse bool) bool {
 	for i := 0; i < len(a) && i < len(b); i++ {
 		switch ta := a[i].(type) {
 		case string:
 			tb, _ := b[i].(string)
 			if ta != tb {
-				return ta < tb
+				return (ta < tb) != reverse
 			}
 		case int:
 			tb, _ := b[i].(int)
@@ -85,6 +89,70 @@ func docLess(a, b []any) bool {
 		}
 	}
 	return len(a) < len(b)
+}
+
+// writeDoc writes the tree as JSON with the members of every object in ascending or descending
+// key order.
+func writeDoc(v any, indent int, reverse bool) string {
+	if !reverse {
+		return oj.JSON(v, &ojg.Options{Sort: true, Indent: indent})
+	}
+	var sb strings.Builder
+	var w func(v any, depth int)
+	nl := func(depth int) {
+		if indent > 0 {
+			sb.WriteByte('\n')
+			sb.WriteString(strings.Repeat(" ", indent*depth))
+		}
+	}
+	w = func(v any, depth int) {
+		switch tv := v.(type) {
+		case map[string]any:
+			if len(tv) == 0 {
+				sb.WriteString("{}")
+				return
+			}
+			keys := make([]string, 0, len(tv))
+			for k := range tv {
+				keys = append(keys, k)
+			}
+			sort.Sort(sort.Reverse(sort.StringSlice(keys)))
+			sb.WriteByte('{')
+			for i, k := range keys {
+				if i > 0 {
+					sb.WriteByte(',')
+				}
+				nl(depth + 1)
+				sb.WriteString(oj.JSON(k))
+				sb.WriteByte(':')
+				if indent > 0 {
+					sb.WriteByte(' ')
+				}
+				w(tv[k], depth+1)
+			}
+			nl(depth)
+			sb.WriteByte('}')
+		case []any:
+			if len(tv) == 0 {
+				sb.WriteString("[]")
+				return
+			}
+			sb.WriteByte('[')
+			for i, e := range tv {
+				if i > 0 {
+					sb.WriteByte(',')
+				}
+				nl(depth + 1)
+				w(e, depth+1)
+			}
+			nl(depth)
+			sb.WriteByte(']')
+		default:
+			sb.WriteString(oj.JSON(v))
+		}
+	}
+	w(v, 0)
+	return sb.String()
 }
 
 // ---- the streaming handler's reading of the targets (attribution of C17-K1..K3 only) ----
@@ -160,7 +228,7 @@ type splitTarget struct {
 	prefix, rest jpx.Path
 }
 
-func handlerReading(doc any, targets []jpx.Path) (hits []hit, open string) {
+func handlerReading(doc any, targets []jpx.Path, reverse bool) (hits []hit, open string) {
 	var sts []splitTarget
 	for _, t := range targets {
 		st := splitTarget{prefix: t}
@@ -192,6 +260,9 @@ func handlerReading(doc any, targets []jpx.Path) (hits []hit, open string) {
 						keys = append(keys, k)
 					}
 					sort.Strings(keys)
+					if reverse {
+						sort.Sort(sort.Reverse(sort.StringSlice(keys)))
+					}
 					for _, k := range keys {
 						walk(m[k], append(append([]any(nil), path...), k))
 					}
@@ -266,7 +337,10 @@ func handlerLess(a, b []any) bool {
 
 func Run(cs Case, c *vrt.Ctx) {
 	doc := wx.Dec(cs.Doc)
-	text := oj.JSON(doc, &ojg.Options{Sort: true, Indent: cs.Indent})
+	text := writeDoc(doc, cs.Indent, cs.Reverse)
+	if cs.Reverse {
+		c.Class("keys-descending")
+	}
 	var targets []jp.Expr
 	var all []jpx.Loc
 	feats := map[string]bool{}
@@ -349,7 +423,7 @@ func Run(cs Case, c *vrt.Ctx) {
 			keep = append(keep, p)
 		}
 	}
-	sort.Slice(keep, func(i, j int) bool { return docLess(keep[i], keep[j]) })
+	sort.Slice(keep, func(i, j int) bool { return docLess(keep[i], keep[j], cs.Reverse) })
 	var want []hit
 	for _, p := range keep {
 		r := jpx.Eval(pathOf(p), doc)
@@ -437,7 +511,7 @@ func Run(cs Case, c *vrt.Ctx) {
 		}
 		if fmt.Sprint(got) != fmt.Sprint(want) {
 			tags := tags
-			if hr, open := handlerReading(doc, cs.Targets); fmt.Sprint(got) == fmt.Sprint(hr) || open != "" {
+			if hr, open := handlerReading(doc, cs.Targets, cs.Reverse); fmt.Sprint(got) == fmt.Sprint(hr) || open != "" {
 				tags = append(append([]string(nil), tags...), "explained-by-handler-reading")
 			}
 			kind := "wrong-matches"
@@ -508,7 +582,8 @@ func drawCase(t *rapid.T) Case {
 	for i := 0; i < n; i++ {
 		cs.Targets = append(cs.Targets, drawTarget(t))
 	}
-	text := oj.JSON(doc, &ojg.Options{Sort: true, Indent: cs.Indent})
+	cs.Reverse = rapid.IntRange(0, 3).Draw(t, "reverse") == 0
+	text := writeDoc(doc, cs.Indent, cs.Reverse)
 	var cuts []int
 	for i := 1; i < len(text); i++ {
 		if text[i-1] != ' ' && text[i] != ' ' {
